@@ -60,6 +60,15 @@ impl Flags {
 }
 
 /// The [alignment](maligned::Alignment) by the [`Memory`](MemBackend::Memory) variant of [`MemBackend`].
+#[cfg(epserde_verif)]
+impl Flags {
+    /// Verification hook: the bits of the `mmap_rs::MmapFlags` these flags are translated to.
+    #[cfg(feature = "mmap")]
+    pub fn verif_mmap_flag_bits(&self) -> u32 {
+        self.mmap_flags().bits()
+    }
+}
+
 pub type MemoryAlignment = A64;
 
 /// Possible backends of a [`MemCase`]. The `None` variant is used when the data structure is
@@ -118,6 +127,14 @@ impl<S> MemCase<S> {
     /// Encases a data structure in a [`MemCase`] with no backend.
     pub fn encase(s: S) -> MemCase<S> {
         MemCase(s, MemBackend::None)
+    }
+}
+
+#[cfg(epserde_verif)]
+impl<S> MemCase<S> {
+    /// Verification hook: address and length of the backing region, if any.
+    pub fn verif_backing_range(&self) -> Option<(usize, usize)> {
+        self.1.as_ref().map(|b| (b.as_ptr() as usize, b.len()))
     }
 }
 
